@@ -44,10 +44,8 @@ def main():
     # deep nesting and long chains (the evaluator and the expression parser recurse)
     for k in (10, 50, 150):   # (deeper: the child-process grid xpath.deep)
         out += ['(' * k + '1' + ')' * k, '-' * k + '1', '/' + '/'.join(['a'] * k), 'a' + '[a' * k + ']' * k, '1' + '+1' * k, 'count(' * k + '/' + ')' * k, '//a' + '[1]' * k, 'a|' * k + 'a', 'not(' * k + 'true()' + ')' * k]
-    # steps that reach the same nodes again and again (a list that is not de-duplicated grows with every step)
-    for k in (10, 20, 40):
-        out += ['/r' + '/*/..' * k + '/*', '/r' + '/a/..' * k, '//*' * min(k, 12), '/r' + '/descendant::*/ancestor::*' * k, '/r' + '/*/parent::*' * k + '/@x', '//a' + '/following::*/preceding::*' * k,
-                '(//* | //@*)' + '/..' * k, '/r' + '/*/preceding-sibling::*/following-sibling::*' * k]
+    # (steps that reach the same nodes again and again -- where a missing de-duplication makes evaluation exponential -- run in
+    #  child processes with a time limit: grid xpath.deep)
     with open(OUT, 'w', encoding='utf-8') as f:
         for m in out:
             f.write(G.esc(m) + '\n')
